@@ -3,7 +3,7 @@
 Carriers: bluesky/run_engine.py: RunEngine._create, _declare_stream, _read, _monitor, _unmonitor, _save, _drop, _kickoff,
 _collect, _configure, _close_run, _open_run, _checkpoint, _rewind, _reset_checkpoint_state_meth / _coro;
 bluesky/bundlers.py: RunBundler.create / read / save / close_run / reset_checkpoint_state / rewind (executed, contract = C05);
-bluesky/preprocessors.py: set_run_key_wrapper, set_run_key_wrapper._set_run_key, msg_mutator.
+bluesky/preprocessors.py: set_run_key_wrapper, set_run_key_wrapper._set_run_key, msg_mutator, baseline_wrapper (+ plan_mutator).
 
 F   (T1, frame contracts, recording fake bundlers) with several runs open - the default key None, a string key and *falsy but valid*
     keys (0, '') among them - each handler applies the message to the bundler registered under the message's run key and to no
@@ -13,7 +13,9 @@ F   (T1, frame contracts, recording fake bundlers) with several runs open - the 
     that is already open is rejected without disturbing the open runs; a new key gets its own bundler.
 K   set_run_key_wrapper, nested to depth 2, for run keys of every kind (arbitrary int, arbitrary str, an object of arbitrary
     truth value, (), False): a message that carries a key (anything but None) keeps it, an un-keyed one gets the key of the
-    innermost wrapper; the other fields are kept; the answer of the RunEngine reaches the plan.
+    innermost wrapper; the other fields are kept; the answer of the RunEngine reaches the plan.  baseline_wrapper (the preprocessor
+    that inserts messages for a keyed run) over two interleaved runs: every inserted baseline message carries the key of the run
+    whose open_run / close_run triggered it.
 I   (interleaved runs under an interruption; the real RunEngine handlers over two *real* RunBundlers with symbolic sequence
     counters 1 <= snap <= next, keys of every kind) any (explicit / implicit) checkpoint - caused by a message of the *other* run
     or by none in particular -, then events of the two runs in any order of an enumerated shape, a rejected duplicate open_run in
@@ -21,8 +23,15 @@ I   (interleaved runs under an interruption; the real RunEngine handlers over tw
     run by run, the documents carry the run's own start uid, a replayed event gets the seq_num it had the first time (numbering
     continues from where the run was at the checkpoint, whatever happened to the other run), and stop.num_events counts the
     run's own events.  (Per-run lifecycle / numbering of a single bundler are C01 / C05.)
+T2  (the real _run / __call__ / resume / abort / stop / halt / request_pause / request_suspend under the asyncio model, an arbitrary plan
+    over open_run / close_run of two run keys - a string and the falsy key 0 -, checkpoint / clear_checkpoint / a registered command,
+    abstract bundlers, every schedule of pause / suspension / abort requests, every post-pause decision) whatever an interruption does
+    to one open run - interruption record, monitors suspended / restored, rewind, checkpoint state reset / cleared, monitors cleared in
+    the epilogue - it does to every open run; a close_run of the plan closes the run opened under its key; when the engine is idle
+    again every run that was opened has been closed exactly once.
 """
 import collections
+import os
 
 from .lib import *
 from .re_lib import *
@@ -38,8 +47,10 @@ TRUSTED = EM_ASSUMPTIONS + ["F: bundlers are abstract (recording fakes): only wh
                             "I: enumerated shape: two runs, one stream each, up to two events between the checkpoint and the interruption; "
                             "counters, readings and run keys are symbolic / representative of their kind",
                             "run keys are hashable values used only through ==, hash, `is None` and truth testing"]
-NOT_DECIDED = ("interruptions landing *inside* a handler (T2 with real bundlers); monitor / collect streams of concurrent runs under a rewind (C05 per bundler); "
-               "run keys on messages inserted by preprocessors other than set_run_key_wrapper (they carry run=None; baseline_wrapper re-keys its own inserts)")
+NOT_DECIDED = ("interruptions landing *inside* a bundler method that awaits a device (T2 runs abstract bundlers, I runs the real ones between scheduling points); "
+               "monitor / collect streams of concurrent runs under a rewind (C05, per bundler); more than two concurrent runs in T2 / I (three in F); "
+               "run keys on messages inserted by preprocessors other than set_run_key_wrapper / baseline_wrapper (monitor_during, fly_during ... insert run=None "
+               "messages, which an enclosing set_run_key_wrapper keys)")
 
 # handler -> (bundler method, behaviour when the key is not open)
 HANDLERS = {"_create": ("create", "ims"), "_declare_stream": ("declare_stream", "ims"), "_save": ("save", "ims"), "_drop": ("drop", "ims"),
@@ -203,9 +214,13 @@ def set_run_key(I):
     g = I.call_value(wrap, I.call_value(I.global_lookup(m, "one"), msg), k_inner)
     if depth == 2:
         g = I.call_value(wrap, g, "outer")
-    o = g.resume(("send", None))
-    got = o[1]
     rp = {"replay": "runkeys.set_run_key", "own": own, "inner": inner, "depth": depth}
+    try:
+        o = g.resume(("send", None))
+    except PyRaise as pr:
+        w.fail(SRK, dict(rp, raised=repr(pr.exc)))          # every value but None is a valid key for the wrapper too
+        return
+    got = o[1]
     ok = o[0] == "yield" and isinstance(got, MsgVal) and got.command == "read" and got.obj is obj and got.args == (1,) and got.kwargs == {"k": 2}
     if ok:
         ok = And(same_key(got.run, k_own), got is msg) if own != "none" else same_key(got.run, k_inner)
@@ -233,6 +248,63 @@ def set_run_key_twin(I):
     g = I.call_value(I.get_function(f"{PP}:set_run_key_wrapper"), I.call_value(I.global_lookup(m, "one"), msg), "outer")
     o = g.resume(("send", None))
     w.check("twin:an enclosing wrapper re-keys every message", o[0] == "yield" and o[1].run == "outer")
+
+
+BASE = f"{PP}:baseline_wrapper#ensures[the baseline readings inserted after open_run / before close_run of a keyed run carry that run's key - any value but None; the plan's own messages pass unchanged]"
+
+
+@task("baseline_wrapper.run_key", PROP, functions=[f"{PP}:baseline_wrapper", f"{PP}:plan_mutator", f"{PP}:set_run_key_wrapper", f"{PP}:msg_mutator"],
+      expect=[BASE], covers=["baseline readings inserted for a keyed run"])
+def baseline_run_key(I):
+    """the one preprocessor that inserts messages *for a keyed run*: with two interleaved runs (keys of any kind) every inserted baseline
+    message must go to the run whose open_run / close_run triggered it (declare_stream / trigger_and_read are abstract plans of un-keyed
+    messages, as plan_stubs writes them)"""
+    w = I.w
+    kinds = w.choose([("int", "str"), ("str", "object"), ("object", "false"), ("empty-tuple", "int"), ("none", "str"), ("int", "none")], "kinds of the two run keys")
+    keys = [None if k == "none" else run_key(w, k, f"key{i}") for i, k in enumerate(kinds)]
+    m = __import__("pyvc.bisim", fromlist=["reference_module"]).reference_module(
+        I.P, "verif_c14_seq", "def seq(msgs):\n    out = []\n    for m in msgs:\n        out.append((yield m))\n    return out\n")
+    seq = I.global_lookup(m, "seq")
+    dev = Opaque("bdev", {"token": "dev", "truth": True, "isinstance_default": False})
+    inserted = []
+
+    def stub(cmds):
+        def f(I_, a, k):
+            ms = [MsgVal(c, dev if c != "create" else None, (), {"name": k.get("name")} if c in ("create", "declare_stream") else {}, None) for c in cmds]
+            inserted.extend(ms)
+            return I_.call_value(seq, ms)
+        return native(f)
+    w.stubs[(PP, "declare_stream")] = stub(["declare_stream"])
+    w.stubs[(PP, "trigger_and_read")] = stub(["trigger", "create", "read", "save"])
+    user = [MsgVal("open_run", None, (), {}, keys[0]), MsgVal("open_run", None, (), {}, keys[1]), MsgVal("checkpoint", None, (), {}, None),
+            MsgVal("close_run", None, (), {}, keys[0]), MsgVal("close_run", None, (), {}, keys[1])]
+    g = I.call_value(I.get_function(f"{PP}:baseline_wrapper"), I.call_value(seq, user), [dev])
+    got, tok = [], ("send", None)
+    rp = {"replay": "runkeys.baseline", "kinds": list(kinds)}
+    try:
+        while len(got) < 40:
+            o = g.resume(tok)
+            if o[0] != "yield":
+                break
+            got.append(o[1])
+            tok = ("send", None)
+    except PyRaise as pr:
+        w.fail(BASE, dict(rp, raised=repr(pr.exc)))
+        return
+    # from the statement: open(k0) [declare, trigger, create, read, save]@k0  open(k1) [..5..]@k1  checkpoint  [trigger, create, read, save]@k0 close(k0)  [..4..]@k1 close(k1)
+    want = [("open_run", 0, True)] + [(c, 0, False) for c in ("declare_stream", "trigger", "create", "read", "save")] \
+        + [("open_run", 1, True)] + [(c, 1, False) for c in ("declare_stream", "trigger", "create", "read", "save")] + [("checkpoint", None, True)] \
+        + [(c, 0, False) for c in ("trigger", "create", "read", "save")] + [("close_run", 0, True)] + [(c, 1, False) for c in ("trigger", "create", "read", "save")] + [("close_run", 1, True)]
+    ok = len(got) == len(want) and all(isinstance(x, MsgVal) and x.command == c for x, (c, r, own) in zip(got, want))
+    conds = []
+    if ok:
+        w.cover("baseline readings inserted for a keyed run")
+        for x, (c, r, own) in zip(got, want):
+            k = None if r is None else keys[r]
+            conds.append(x.run is None if k is None else same_key(x.run, k))
+            if own:
+                conds.append(any(x is u for u in user))
+    w.check(BASE, And(*conds) if ok and all(c is not False for c in conds) else False, dict(rp, commands=[getattr(x, "command", None) for x in got]))
 
 
 # ------------------------------------------------------------------------------------------------ I: interleaved runs under a rewind
@@ -267,8 +339,8 @@ def real_run(I, env, tag):
         raise EngineError(f"_prepare_stream failed in harness: {r[1].attrs}")
     n, s = w.int(f"next_{tag}"), w.int(f"snap_{tag}")
     w.add(And(s >= 1, s <= n))
-    b._sequence_counters["primary"] = n
-    b._sequence_counters_copy["primary"] = s
+    I.getattr(b, "_sequence_counters")["primary"] = n           # (I.getattr: wherever the class keeps them)
+    I.getattr(b, "_sequence_counters_copy")["primary"] = s
     return {"b": b, "uid": uid, "dev": dev, "desc": r[1][0]["uid"], "next": n, "snap": s, "tag": tag}
 
 
@@ -295,7 +367,7 @@ def _mk_interleaved(M):
         I.call_hooks[f"{RE}._close_run_trace"] = lambda I_, f, a, k: ret(None)
         runs = {"A": real_run(I, env, "A"), "B": real_run(I, env, "B")}
         key = {"A": ka, "B": kb}
-        old = [MsgVal("custom", None, (), {}, None)]
+        old = [MsgVal("null", None, (), {}, None)]
         re_ = _open_re(I, env, {ka: runs["A"]["b"], kb: runs["B"]["b"]})
         I.setattr(re_, "_msg_cache", collections.deque(old if cache0 == "messages" else []))
         if cache0 == "empty":
@@ -326,9 +398,13 @@ def _mk_interleaved(M):
             execute(MsgVal("checkpoint", None, (), {}, None))
             open_now = ["A", "B"]
         cache = I.getattr(re_, "_msg_cache")
-        w.check(SNAP, And(cache is not None and len(cache) == 0,
-                          *[And(Eq(runs[R]["b"]._sequence_counters_copy["primary"], runs[R]["next"]), Eq(runs[R]["b"]._sequence_counters["primary"], runs[R]["next"]))
-                            for R in open_now]), rp)
+        emptied = cache is not None and len(cache) == 0
+        w.check(SNAP, And(emptied,
+                          *[And(Eq(I.getattr(runs[R]["b"], "_sequence_counters_copy").get("primary"), runs[R]["next"]),
+                                Eq(I.getattr(runs[R]["b"], "_sequence_counters").get("primary"), runs[R]["next"])) for R in open_now]), rp)
+        if not emptied:
+            # (`old` stands for whatever was executed between the snapshots and this checkpoint; it is only sound as long as it is never replayed)
+            raise PathEnd("reported: the checkpoint did not empty the message cache")
         # ---- events of the open runs, a rejected duplicate open_run in between
         taken = {"A": [], "B": []}       # run -> list of readings, in the order taken
         n_before = len(env.emitted)
@@ -412,7 +488,7 @@ TRUSTED = TRUSTED + [a for a in _t2.TRUSTED_T2 if a not in TRUSTED] + [
 T2_KINDS = ("record_interruption", "suspend_monitors", "restore_monitors", "rewind", "reset_checkpoint_state", "clear_checkpoint", "clear_monitors")
 ALIKE = f"{RE}._run#invariant[concurrent runs: whatever an interruption does to one open run (interruption record, monitors suspended / restored, rewind, checkpoint reset / clear) it does to every open run]"
 LIFE = f"{RE}._run#ensures[concurrent runs: when the engine is idle again every run that was opened has been closed exactly once]"
-BYKEY = f"{RE}._close_run#ensures[concurrent runs: a close_run message (of the plan or of the engine's epilogue) closes the run opened under its key]"
+BYKEY = f"{RE}._close_run#ensures[concurrent runs: a close_run message of the plan closes the run opened under its key]"
 
 
 class C14Runs:
@@ -456,8 +532,8 @@ class C14Runs:
             self.compare(info, [p for p in self.lag if b.idx in p])
             for p in [p for p in self.lag if b.idx in p]:
                 del self.lag[p]
-            key = m.kwargs["run_id"] if "exit_status" in m.kwargs and "run_id" in m.kwargs else m.run
-            w.check(BYKEY, b.idx in self.key_of and key == self.key_of[b.idx] and type(key) is type(self.key_of[b.idx]), dict(info, key=repr(key)))
+            if "exit_status" not in m.kwargs:          # (a close_run of the plan; the epilogue's own close_run messages are covered by LIFE)
+                w.check(BYKEY, b.idx in self.key_of and m.run == self.key_of[b.idx] and type(m.run) is type(self.key_of[b.idx]), dict(info, key=repr(m.run)))
         elif kind in T2_KINDS and a and isinstance(a[0], _t2.Bundler):
             b = a[0]
             for (o, y), d in self.lag.items():
@@ -482,8 +558,10 @@ def _c14_runs(sc, tr):
 T2_SCENARIOS = [
     ("open_run@a,open_run@0,close_run@a,close_run@0,checkpoint", "pause", {"max_requests": 1}),
     ("open_run@a,open_run@0,close_run@0,custom", "suspend", {"max_requests": 1}),
-    ("open_run@a,open_run@0,close_run@a", "abort", {"max_requests": 1}),
+    ("open_run@a,open_run@0,close_run@a,clear_checkpoint", "abort", {"max_requests": 1}),
 ]
+if os.environ.get("VERIF_TIER") == "thorough":
+    T2_SCENARIOS += [("open_run@a,open_run@0,close_run@a,close_run@0,checkpoint", "pause,suspend", {"max_requests": 2})]
 _t2.t2_tasks(PROP, "two-keys", T2_SCENARIOS, [_c14_runs], expect=[ALIKE, LIFE, BYKEY])
 
 
